@@ -364,7 +364,7 @@ fn main() {
     let mut rep = Report::new(&format!("misc/{sub}"));
     let single = a.kv.get("choices").map(|c| parse_choices(c));
     for i in 0..runs {
-        let seed = seed0.wrapping_mul(1_000_003).wrapping_add(i);
+        let seed = if a.kv.contains_key("seedx") { a.num("seedx", 0) } else { seed0.wrapping_mul(1_000_003).wrapping_add(i) };
         if sub == "freerun" {
             let viol = free_run(seed);
             rep.add_run(&[format!("freerun {seed}")], true, "freerun", "Completed");
